@@ -15,7 +15,7 @@
    These hypotheses are NOT proved of numpy's RandomState, emcee or the Hankel transform: the statistical probes of
    harness/c01.py are their only coverage.  [C01_*_hypotheses_satisfiable] shows they are jointly satisfiable. *)
 From Coq Require Import Reals List ZArith Bool.
-From GS Require Import Num Loops RInst C12_Model C01_Model C01_Prob C01_Inst C01_Sampling C01_Sphere C01_Srf.
+From GS Require Import Num Loops RInst C12_Model C01_Model C01_Prob C01_Inst C01_Sampling C01_Sphere C01_Srf C01_Upscale.
 Import ListNotations.
 Open Scope R_scope.
 
@@ -207,3 +207,64 @@ Theorem C01_sphere_sampling_3d :
         /\ mean3 (fun a z => sy ora a z * sz ora a z) = 0).
 Proof. intros ora. exact (conj (sphere3_first_moments ora) (sphere3_second_moments ora)). Qed.
 Print Assumptions C01_sphere_sampling_3d.
+
+(* ---- variance upscaling entry of SRF.__call__ (point_volumes given): field *= sqrt(upscaling_func(model, V) / sill).
+   "no_scaling" (the default) is the identity whatever the nugget; with c = sqrt(scaled_var / sill) the pointwise variance of
+   the upscaled field is scaled_var; coarse graining gives 0 < scaled_var <= sill for every edge length, = sill at edge 0 *)
+Theorem C01_no_scaling_identity :
+  forall (ora : nat -> list R -> R) (var nugget x : R), 0 < var + nugget ->
+    x * upscale_factor (Rops ora) (var_no_scaling (Rops ora) var nugget) var nugget = x.
+Proof. exact no_scaling_identity. Qed.
+Print Assumptions C01_no_scaling_identity.
+
+Theorem C01_upscaled_variance :
+  forall (Om : Type) (E : (Om -> R) -> R) (ora : nat -> list R -> R) (N P : nat)
+         (KS : Om -> list (list R)) (Z1 Z2 W : Om -> list R),
+    H0_normalised E -> H1_linear E -> H2_amplitudes E N KS Z1 Z2 -> H4_nugget E N P KS Z1 Z2 W ->
+    modes_shape N KS ->
+    forall (pos : list (list R)) (rho : list R -> R) (var nugget sv : R) (i : nat),
+      shape1 pos = P -> H3_spectral E N (shape0 pos) KS rho ->
+      0 <= var -> 0 <= nugget -> 0 < var + nugget -> (1 <= N)%nat -> 0 <= sv -> (i < P)%nat ->
+      E (fun w => (rm_field ora var N nugget KS Z1 Z2 W pos i w * upscale_factor (Rops ora) sv var nugget)
+                * (rm_field ora var N nugget KS Z1 Z2 W pos i w * upscale_factor (Rops ora) sv var nugget)) = sv.
+Proof. exact randmeth_upscaled_variance. Qed.
+Print Assumptions C01_upscaled_variance.
+
+Theorem C01_coarse_graining_bounds :
+  forall (ora : nat -> list R -> R) (dim : Z) (l edge var nugget : R), (1 <= dim)%Z -> 0 < l -> 0 < var + nugget ->
+    0 < sill_of (Rops ora) var nugget * cg_factor (Rops ora) dim l edge <= sill_of (Rops ora) var nugget
+    /\ cg_factor (Rops ora) dim l 0 = 1.
+Proof.
+  intros ora dim l edge var nugget Hd Hl Hs.
+  exact (conj (coarse_graining_bounds ora dim l edge var nugget Hd Hl Hs) (coarse_graining_zero_edge ora dim l Hd Hl)).
+Qed.
+Print Assumptions C01_coarse_graining_bounds.
+
+(* ---- exact scale equivariance: wave vectors k / L on positions L x give the very same field (every L <> 0, every draw);
+   wave vectors following the spectral measure of rho, divided by L, follow that of h |-> rho(h / L)  [S_L(k) = L^d S_1(L k)];
+   the analytic radial distributions satisfy cdf_{L l}(r / L) = cdf_l(r), ppf_{L l}(u) = ppf_l(u) / L *)
+Theorem C01_randmeth_scale_equivariant :
+  forall (ora : nat -> list R -> R) (L var : R) (N : Z) (nugget : R) (ks : list (list R)) (z1 z2 : list R)
+         (pos : list (list R)) (noise : list R), L <> 0 ->
+    randmeth_call (Rops ora) var N nugget (scale_mat (/ L) ks) z1 z2 (scale_mat L pos) noise
+    = randmeth_call (Rops ora) var N nugget ks z1 z2 pos noise.
+Proof. exact randmeth_scale_equivariant. Qed.
+Print Assumptions C01_randmeth_scale_equivariant.
+
+Theorem C01_spectral_scaling :
+  forall (Om : Type) (E : (Om -> R) -> R) (N dim : nat) (KS : Om -> list (list R)) (rho : list R -> R) (L : R), L <> 0 ->
+    H3_spectral E N dim KS rho ->
+    H3_spectral E N dim (fun w => scale_mat (/ L) (KS w)) (fun h => rho (map (Rmult (/ L)) h)).
+Proof. intros Om E N dim KS rho L. exact (spectral_scaling E N dim KS rho L). Qed.
+Print Assumptions C01_spectral_scaling.
+
+Theorem C01_radial_distribution_scaling :
+  forall (ora : nat -> list R -> R) (L l r u : R), L <> 0 -> l <> 0 ->
+    (gau2_cdf (Rops ora) (L * l) (r / L) = gau2_cdf (Rops ora) l r /\ gau2_ppf (Rops ora) (L * l) u = gau2_ppf (Rops ora) l u / L)
+    /\ (exp1_cdf (Rops ora) (L * l) (r / L) = exp1_cdf (Rops ora) l r /\ exp1_ppf (Rops ora) (L * l) u = exp1_ppf (Rops ora) l u / L)
+    /\ (exp2_cdf (Rops ora) (L * l) (r / L) = exp2_cdf (Rops ora) l r /\ exp2_ppf (Rops ora) (L * l) u = exp2_ppf (Rops ora) l u / L).
+Proof.
+  intros ora L l r u HL Hl.
+  exact (conj (gau2_scaling ora L l r u HL Hl) (conj (exp1_scaling ora L l r u HL Hl) (exp2_scaling ora L l r u HL Hl))).
+Qed.
+Print Assumptions C01_radial_distribution_scaling.
